@@ -1644,6 +1644,11 @@ func (t *Topic) thisUserSub(sess *Session, pkt *ClientComMessage, asUid types.Ui
 			private = nil
 		}
 		userData.private = private
+		if sub != nil && sub.DeletedAt != nil {
+			// A deleted subscription is being restored: the adapters keep the private data of the
+			// stored row (TopicShare un-deletes it), the cache must show the same.
+			userData.private = sub.Private
+		}
 
 		// Add subscription to database, if missing.
 		if sub == nil || sub.DeletedAt != nil {
@@ -1974,9 +1979,12 @@ func (t *Topic) anotherUserSub(sess *Session, asUid, target types.Uid, asChan bo
 			return nil, err
 		}
 
+		var restoredPrivate any
 		if sub != nil {
 			// Existing deleted subscription.
 			modeWant = sub.ModeWant
+			// The restored row keeps its private data.
+			restoredPrivate = sub.Private
 		} else {
 			// Get user's default access mode to be used as modeWant
 			if user, err := store.Users.Get(target); err != nil {
@@ -2016,7 +2024,7 @@ func (t *Topic) anotherUserSub(sess *Session, asUid, target types.Uid, asChan bo
 		userData = perUserData{
 			modeGiven: sub.ModeGiven,
 			modeWant:  sub.ModeWant,
-			private:   nil,
+			private:   restoredPrivate,
 		}
 		t.perUser[target] = userData
 		t.computePerUserAcsUnion()
